@@ -36,7 +36,7 @@ func TestC14ProxyRapid(t *testing.T) {
 	sub.Floor("req-carries-upgrade", 0.15)
 	sub.Floor("plugin-wrapped-by-others", 0.15)
 	sub.Floor("plugin-wraps-others", 0.15)
-	lab.Assume("L2 with the real balancer: handler composition and server timeouts replicate cmd/helios/server.go (lab.BuildHandler, lab.NewSocketLab); raw TCP backends record the exact request and play byte-exact response scripts; HTTP/1.1 over loopback only; no interim 1xx, Expect: 100-continue, trailers or upgrades are generated for C14.")
+	lab.Assume("L2 with the real balancer: handler composition and server timeouts replicate cmd/helios/server.go (lab.BuildHandler, lab.NewSocketLab); raw TCP backends record the exact request and play byte-exact response scripts; HTTP/1.1 over loopback only; backend responses are preceded by an interim 100/102/103 in one case of six and chunked ones carry trailer fields in one case of five; Expect: 100-continue is not generated for C14.")
 	lab.Check(t, sub, 4000, 30000, func(rt *rapid.T) {
 		ch := genChain(rt)
 		pcWith, err := ch.Plugins(true)
